@@ -196,6 +196,16 @@ func (f *fakeGitHub) ServeHTTP(w http.ResponseWriter, r *http.Request) {
 		io.WriteString(w, `{"id":1}`)
 	case strings.HasPrefix(p, "/repos/o/r/pulls/1/reviews/") && r.Method == http.MethodPut:
 		io.WriteString(w, `{"id":1}`)
+	case p == "/repos/o/r/issues/1/comments" && r.Method == http.MethodGet:
+		out := []map[string]any{}
+		for i, g := range f.general {
+			var c struct {
+				Body string `json:"body"`
+			}
+			_ = json.Unmarshal([]byte(g), &c)
+			out = append(out, map[string]any{"id": 1000 + i, "body": c.Body})
+		}
+		json.NewEncoder(w).Encode(out)
 	case p == "/repos/o/r/issues/1/comments" && r.Method == http.MethodPost:
 		b, _ := io.ReadAll(r.Body)
 		f.general = append(f.general, string(b))
@@ -210,13 +220,14 @@ func (f *fakeGitHub) ServeHTTP(w http.ResponseWriter, r *http.Request) {
 // ---- scenarios ----------------------------------------------------------------------------------------
 
 type c17SrvRound struct {
+	General int      `json:"general_comments_posted"`
 	Posts   int      `json:"posts"`
 	Deletes int      `json:"deletes"`
 	Store   int      `json:"store_size"`
 	View    []string `json:"-"` // Coq ecomment terms of what List returns after the round
 }
 
-func c17ServerCase(cid int, gitlab bool, path, diff string, budget int, pend []memPending, store0 []string, rounds []c17SrvRound) string {
+func c17ServerCase(cid int, gitlab bool, path, diff string, budget int, pend []memPending, nreports int, tooManyMsg string, store0 []string, rounds []c17SrvRound) string {
 	ps := make([]string, len(pend))
 	for i, p := range pend {
 		ps[i] = coqPC(p)
@@ -225,12 +236,14 @@ func c17ServerCase(cid int, gitlab bool, path, diff string, budget int, pend []m
 	for i, rd := range rounds {
 		rs[i] = fmt.Sprintf("(%s, %s, %s)", coqNat(rd.Posts), coqNat(rd.Deletes), coqList(rd.View))
 	}
+	extra := ""
 	ctor := "ServerGH"
 	if gitlab {
 		ctor = "ServerGL"
+		extra = fmt.Sprintf(" %s %s", coqNat(nreports), c17Str(tooManyMsg))
 	}
-	return fmt.Sprintf("%s %s [{| gd_old_path := %s; gd_new_path := %s; gd_diff := %s |}] %s %s %s %s",
-		ctor, coqN(cid), coqStr(path), coqStr(path), coqStr(diff), coqNat(budget), coqList(ps), coqList(store0), coqList(rs))
+	return fmt.Sprintf("%s %s [{| gd_old_path := %s; gd_new_path := %s; gd_diff := %s |}] %s %s%s %s %s",
+		ctor, coqN(cid), c17Str(path), c17Str(path), c17Str(diff), coqNat(budget), coqList(ps), extra, coqList(store0), coqList(rs))
 }
 
 // glRaw: EVERYTHING the fake GitLab holds, as Model.Platforms.gl_note terms (a line the API omits - 0 here - is None)
@@ -245,9 +258,9 @@ func glRaw(notes []glNote) []string {
 	for _, nn := range notes {
 		pos := "None"
 		if nn.HasPos {
-			pos = fmt.Sprintf("(Some {| gp_old_path := %s; gp_new_path := %s; gp_new_line := %s; gp_old_line := %s |})", coqStr(nn.OldPath), coqStr(nn.NewPath), optLine(nn.NewLine), optLine(nn.OldLine))
+			pos = fmt.Sprintf("(Some {| gp_old_path := %s; gp_new_path := %s; gp_new_line := %s; gp_old_line := %s |})", c17Str(nn.OldPath), c17Str(nn.NewPath), optLine(nn.NewLine), optLine(nn.OldLine))
 		}
-		out = append(out, fmt.Sprintf("{| gn_system := %s; gn_mine := %s; gn_pos := %s; gn_body := %s |}", coqBool(nn.System), coqBool(nn.AuthorID == 7), pos, coqStr(nn.Body)))
+		out = append(out, fmt.Sprintf("{| gn_system := %s; gn_mine := %s; gn_pos := %s; gn_body := %s |}", coqBool(nn.System), coqBool(nn.AuthorID == 7), pos, c17Str(nn.Body)))
 	}
 	return out
 }
@@ -405,7 +418,14 @@ func c17GitLabScenario(r *rand.Rand, rep *runReport, cw *caseWriter, cid int, k 
 		sc.Rounds = append(sc.Rounds, c17SrvRound{Posts: posts, Deletes: len(f.deletes), Store: len(f.notes), View: glRaw(f.notes)})
 	}
 	sc.Store = f.notes
-	cw.add(c17ServerCase(cid, true, path, diff, budget, pend, store0, sc.Rounds))
+	// the text of the general "too many comments" note, as first posted (its wording is an input of the model)
+	tooMany := ""
+	for _, nn := range f.notes {
+		if !nn.HasPos && nn.AuthorID == 7 && !nn.System && nn.NoteID > 100 && tooMany == "" {
+			tooMany = nn.Body
+		}
+	}
+	cw.add(c17ServerCase(cid, true, path, diff, budget, pend, len(reps), tooMany, store0, sc.Rounds))
 	rep.count(fmt.Sprintf("%+v", sc), sc.Rounds[0].Posts > 0)
 	rep.hist("kind=gitlab-server")
 	rep.hist("srv-diff:" + kind)
@@ -465,6 +485,10 @@ func c17GitLabScenario(r *rand.Rand, rep *runReport, cw *caseWriter, cid int, k 
 		rep.fail(fmt.Sprintf("srv%d", k), fmt.Sprintf("GitLab: run %d with unchanged results, nothing deferred, still created %d and deleted %d comment(s)", len(sc.Rounds), last.Posts, last.Deletes), sc)
 		return
 	}
+	if prev := sc.Rounds[len(sc.Rounds)-2]; prev.Posts == 0 && prev.Deletes == 0 && last.Store != prev.Store {
+		rep.fail(fmt.Sprintf("srv%d", k), fmt.Sprintf("GitLab: run %d with unchanged results and nothing left to do changed the number of notes on the merge request from %d to %d (a general note posted again?)", len(sc.Rounds), prev.Store, last.Store), sc)
+		return
+	}
 	rep.sample(map[string]any{"kind": "gitlab-server", "rounds": sc.Rounds, "pending": len(pend), "budget": budget})
 }
 
@@ -493,14 +517,15 @@ func c17GitHubScenario(r *rand.Rand, rep *runReport, cw *caseWriter, cid int, k 
 	need := (len(pend)+budget-1)/budget + 1
 	for q := 0; q < need+1; q++ {
 		f.posts = nil
+		ngen := len(f.general)
 		if err := reporter.Submit(context.Background(), summary, gh, false); err != nil {
 			rep.fail(fmt.Sprintf("srv%d", k), "GitHub: Submit failed against the fake API: "+err.Error(), sc)
 			return
 		}
-		sc.Rounds = append(sc.Rounds, c17SrvRound{Posts: len(f.posts), Store: len(f.comments), View: ghRaw(f.comments)})
+		sc.Rounds = append(sc.Rounds, c17SrvRound{General: len(f.general) - ngen, Posts: len(f.posts), Store: len(f.comments), View: ghRaw(f.comments)})
 	}
 	sc.Store = f.comments
-	cw.add(c17ServerCase(cid, false, path, diff, budget, pend, store0, sc.Rounds))
+	cw.add(c17ServerCase(cid, false, path, diff, budget, pend, len(reps), "", store0, sc.Rounds))
 	rep.count(fmt.Sprintf("%+v", sc), sc.Rounds[0].Posts > 0)
 	rep.hist("kind=github-server")
 	rep.hist("srv-diff:" + kind)
@@ -526,6 +551,17 @@ func c17GitHubScenario(r *rand.Rand, rep *runReport, cw *caseWriter, cid int, k 
 	last := sc.Rounds[len(sc.Rounds)-1]
 	if last.Posts > 0 {
 		rep.fail(fmt.Sprintf("srv%d", k), fmt.Sprintf("GitHub: run %d with unchanged results, nothing deferred, still created %d comment(s)", len(sc.Rounds), last.Posts), sc)
+		return
+	}
+	// ... and no other comment either: the previous run already had nothing to create, so this one must leave the pull request alone
+	if prev := sc.Rounds[len(sc.Rounds)-2]; prev.Posts == 0 && last.General > 0 {
+		what := fmt.Sprintf("GitHub: run %d with unchanged results and nothing left to create still posted %d general comment(s) on the pull request (%d in total over %d runs): %.80q...",
+			len(sc.Rounds), last.General, len(f.general), len(sc.Rounds), f.general[len(f.general)-1])
+		if budget > 0 && len(reps) > budget {
+			rep.failKnown(fmt.Sprintf("srv%d", k), what, sc, "C17-github-general-comment-repeated")
+		} else {
+			rep.fail(fmt.Sprintf("srv%d", k), what, sc)
+		}
 		return
 	}
 	for _, c := range f.comments {
